@@ -14,166 +14,166 @@ Fixpoint strs_eqb (a b : list string) : bool :=
   end.
 
 Definition pin_GenericEngine_Start : list string := [
-  "assign done := make(chan interface{})";
-  "assign errc := make(chan error, 100)";
-  "assign requests, err := e.reqgen.GenerateRequests(ctx, r)";
-  "if err != nil{";
-  " send errc <- err";
-  " do close(errc)";
-  " do close(done)";
-  " return done, errc";
+  "assign v3 := make(chan interface{})";
+  "assign v4 := make(chan error, 100)";
+  "assign v5, v6 := v0.reqgen.GenerateRequests(v1, v2)";
+  "if v6 != nil{";
+  " send v4 <- v6";
+  " do close(v4)";
+  " do close(v3)";
+  " return v3, v4";
   "}";
   "go{";
-  " defer close(done)";
-  " defer close(errc)";
-  " for i <= e.workerCount{";
-  "  do wg.Add(1)";
-  "  go e.worker(ctx, &wg, requests, errc)";
+  " defer close(v3)";
+  " defer close(v4)";
+  " for v8 <= v0.workerCount{";
+  "  do v7.Add(1)";
+  "  go v0.worker(v1, &v7, v5, v4)";
   " }";
-  " do wg.Wait()";
+  " do v7.Wait()";
   "}";
-  "return done, errc"
+  "return v3, v4"
 ].
 
 Definition pin_GenericEngine_worker : list string := [
-  "defer wg.Done()";
+  "defer v2.Done()";
   "for {";
   " select{";
-  "  case <-ctx.Done():";
+  "  case <-v1.Done():";
   "   return";
-  "  case r, ok := <-requests:";
-  "   if !ok{";
+  "  case v5, v6 := <-v3:";
+  "   if !v6{";
   "    return";
   "   }";
-  "   if r.Err != nil{";
-  "    do writeError(ctx, errc, r.Err)";
+  "   if v5.Err != nil{";
+  "    do writeError(v1, v4, v5.Err)";
   "    continue";
   "   }";
-  "   assign result, err := e.scanner.Scan(ctx, r)";
-  "   if err != nil{";
-  "    do writeError(ctx, errc, err)";
+  "   assign v7, v8 := v0.scanner.Scan(v1, v5)";
+  "   if v8 != nil{";
+  "    do writeError(v1, v4, v8)";
   "    continue";
   "   }";
-  "   if result != nil{";
-  "    do e.results.Put(result)";
+  "   if v7 != nil{";
+  "    do v0.results.Put(v7)";
   "   }";
   " }";
   "}"
 ].
 
 Definition pin_NewResultChan : list string := [
-  "assign results := make(chan Result, capacity)";
-  "assign internalResults := make(chan Result, capacity)";
-  "assign copyChans := func() {...}";
+  "assign v2 := make(chan Result, v1)";
+  "assign v3 := make(chan Result, v1)";
+  "assign v4 := func() {...}";
   " func{";
-  "  defer close(results)";
+  "  defer close(v2)";
   "  for {";
   "   select{";
-  "    case <-ctx.Done():";
+  "    case <-v0.Done():";
   "     return";
-  "    case v := <-internalResults:";
+  "    case v5 := <-v3:";
   "     select{";
-  "      case <-ctx.Done():";
+  "      case <-v0.Done():";
   "       return";
-  "      case results <- v:";
+  "      case v2 <- v5:";
   "     }";
   "   }";
   "  }";
   " }";
-  "go copyChans()";
-  "return &resultChan{ ctx: ctx, results: results, internalResults: internalResults, }"
+  "go v4()";
+  "return &resultChan{ ctx: v0, results: v2, internalResults: v3, }"
+].
+
+Definition pin_logger_LogResults : list string := [
+  "assign v3 := bufio.NewWriter(v0.w)";
+  "defer v3.Flush()";
+  "assign v5 := time.After(v0.flushInterval)";
+  "for {";
+  " select{";
+  "  case <-v1.Done():";
+  "   return";
+  "  case v6, v7 := <-v2:";
+  "   if !v7{";
+  "    return";
+  "   }";
+  "   assign v4 := v0.rw.Write(v0.w, v6)";
+  "   if v4 != nil{";
+  "    do v0.Error(v4)";
+  "   }";
+  "  case <-v5:";
+  "   assign v4 = v3.Flush()";
+  "   if v4 != nil{";
+  "    do v0.Error(v4)";
+  "   }";
+  "   assign v5 = time.After(v0.flushInterval)";
+  " }";
+  "}"
+].
+
+Definition pin_rateLimitScanner_Scan : list string := [
+  "do v0.limiter.Take()";
+  "return v0.Scanner.Scan(v1, v2)"
 ].
 
 Definition pin_resultChan_Put : list string := [
   "select{";
-  " case <-c.ctx.Done():";
+  " case <-v0.ctx.Done():";
   "  return";
-  " case c.internalResults <- r:";
+  " case v0.internalResults <- v1:";
   "}"
 ].
 
 Definition pin_startScanEngine : list string := [
-  "assign ctx, cancel := context.WithCancel(ctx)";
-  "defer cancel()";
-  "do wg.Add(1)";
+  "assign v0, v3 := context.WithCancel(v0)";
+  "defer v3()";
+  "do v5.Add(1)";
   "go{";
-  " defer wg.Done()";
-  " do logger.LogResults(ctx, engine.Results())";
+  " defer v5.Done()";
+  " do v4.LogResults(v0, v1.Results())";
   "}";
-  "assign done, errc := engine.Start(ctx, &conf.scanRange)";
+  "assign v6, v7 := v1.Start(v0, &v2.scanRange)";
   "go{";
-  " defer cancel()";
-  " do <-done";
-  " do <-time.After(conf.exitDelay)";
+  " defer v3()";
+  " do <-v6";
+  " do <-time.After(v2.exitDelay)";
   "}";
-  "do wg.Add(1)";
+  "do v5.Add(1)";
   "go{";
-  " defer wg.Done()";
-  " range errc{";
-  "  do logger.Error(err)";
+  " defer v5.Done()";
+  " range v7{";
+  "  do v4.Error(v8)";
   " }";
   "}";
-  "do wg.Wait()";
+  "do v5.Wait()";
   "return nil"
-].
-
-Definition pin_logger_LogResults : list string := [
-  "assign bw := bufio.NewWriter(l.w)";
-  "defer bw.Flush()";
-  "assign timec := time.After(l.flushInterval)";
-  "for {";
-  " select{";
-  "  case <-ctx.Done():";
-  "   return";
-  "  case result, ok := <-results:";
-  "   if !ok{";
-  "    return";
-  "   }";
-  "   assign err := l.rw.Write(l.w, result)";
-  "   if err != nil{";
-  "    do l.Error(err)";
-  "   }";
-  "  case <-timec:";
-  "   assign err = bw.Flush()";
-  "   if err != nil{";
-  "    do l.Error(err)";
-  "   }";
-  "   assign timec = time.After(l.flushInterval)";
-  " }";
-  "}"
 ].
 
 Definition pin_writeError : list string := [
   "select{";
-  " case <-ctx.Done():";
+  " case <-v0.Done():";
   "  return";
-  " case out <- err:";
+  " case v1 <- v2:";
   "}"
 ].
 
 Definition pin_writeRequest : list string := [
   "select{";
-  " case <-ctx.Done():";
+  " case <-v0.Done():";
   "  return";
-  " case out <- request:";
+  " case v1 <- v2:";
   "}"
-].
-
-Definition pin_rateLimitScanner_Scan : list string := [
-  "do s.limiter.Take()";
-  "return s.Scanner.Scan(ctx, r)"
 ].
 
 Definition shape_checks : list (string * bool) := [
   ("GenericEngine_Start", strs_eqb pin_GenericEngine_Start skel_GenericEngine_Start);
   ("GenericEngine_worker", strs_eqb pin_GenericEngine_worker skel_GenericEngine_worker);
   ("NewResultChan", strs_eqb pin_NewResultChan skel_NewResultChan);
+  ("logger_LogResults", strs_eqb pin_logger_LogResults skel_logger_LogResults);
+  ("rateLimitScanner_Scan", strs_eqb pin_rateLimitScanner_Scan skel_rateLimitScanner_Scan);
   ("resultChan_Put", strs_eqb pin_resultChan_Put skel_resultChan_Put);
   ("startScanEngine", strs_eqb pin_startScanEngine skel_startScanEngine);
-  ("logger_LogResults", strs_eqb pin_logger_LogResults skel_logger_LogResults);
   ("writeError", strs_eqb pin_writeError skel_writeError);
-  ("writeRequest", strs_eqb pin_writeRequest skel_writeRequest);
-  ("rateLimitScanner_Scan", strs_eqb pin_rateLimitScanner_Scan skel_rateLimitScanner_Scan)
+  ("writeRequest", strs_eqb pin_writeRequest skel_writeRequest)
 ].
 
 Definition shape_ok : bool := forallb snd shape_checks.
